@@ -35,7 +35,18 @@ func (o Obs) ErrClass() string {
 }
 
 // guarded runs f with panic recovery and a watchdog.
+// hangCount: calls that did not come back.  Each leaves a goroutine spinning or blocked inside the
+// engine, so after a few of them the watchdog gets shorter, and after many the remaining calls are
+// not made at all (the first ones are the report; a check must end in minutes on any tree).
+var hangCount int64
+
 func guarded(timeout time.Duration, f func() ([]byte, error)) Obs {
+	switch n := atomic.LoadInt64(&hangCount); {
+	case n >= 30:
+		return Obs{Hang: true}
+	case n >= 4 && timeout > time.Second:
+		timeout = time.Second
+	}
 	ch := make(chan Obs, 1)
 	go func() {
 		var o Obs
@@ -57,6 +68,7 @@ func guarded(timeout time.Duration, f func() ([]byte, error)) Obs {
 	case o := <-ch:
 		return o
 	case <-time.After(timeout):
+		atomic.AddInt64(&hangCount, 1)
 		return Obs{Hang: true}
 	}
 }
